@@ -251,7 +251,10 @@ def consumers_rule(ctx):
     if fm is not None:
         rule_taken_reaches(d, "C05.T", fm, "vectorise_mmap",
                            lambda n: n.get("k") == "mcall" and cname(n) == "ktio::mmap::MMWriter::write_at", "row write")
-    from . import c07
+    from . import c07, c08
+    fcov_ = ctx.view(c08.COV)
+    if fcov_ is not None:
+        c08.inputs_rule(dep(ctx, "C06", "C08"), fcov_)       # rows of `cov` are the records of --input, not of --alt-input
     fc = ctx.view(c07.CHUNK)
     if fc is not None:
         c07.take_rule(dep(ctx, "C06", "C07"), fc)
